@@ -21,7 +21,9 @@
 package main
 
 import (
+	"os"
 	"runtime"
+	"runtime/debug"
 	"strings"
 	"time"
 
@@ -250,6 +252,12 @@ func settle() {
 }
 
 func main() {
+	// the scenarios with negotiated compression allocate a flate.Writer (~1 MB) per execution
+	// (nbio's writer pools are emptied between executions); with the default GOGC the collector
+	// runs every few executions (measured: 2-3x slower). The live heap is a few MB.
+	if os.Getenv("GOGC") == "" {
+		debug.SetGCPercent(400)
+	}
 	settle()
 	vkit.Main(&vkit.Spec{
 		Property: "C14", Level: "model_checking",
